@@ -1043,3 +1043,186 @@ theorem nrun_phi (Lmax : Nat) : ∀ (ops : List NOp) (s : NRun),
     omega
 
 end AioslskVerif.Rate
+
+namespace AioslskVerif.Rate
+open AioslskVerif.Generated.Rate
+
+/-! ### Bounded wait behind the FIFO lock
+
+A request that has `j` requests ahead of it (lock holder included) is served within `16·(j+1)` wake-ups of the successive
+lock holders, provided every holder really sleeps at least 10 ticks (< `INTERVAL`) between two polls. Potential:
+`16·(requests ahead) + rem`, where `rem` bounds the number of further empty polls of the current holder (each credits at
+least 8 tokens and the bucket stays below one quantum while polls are empty). -/
+
+/-- how many more empty polls (≥ 8 tokens each) fit below one quantum -/
+def rem (l : Lim) : Nat := (135 - l.bucket) / 8
+
+/-- every wake-up comes at least 10 ticks after the previous poll of that holder -/
+def Disciplined : List LOp → Prop
+  | [] => True
+  | .wake dt :: r => 10 ≤ dt ∧ Disciplined r
+  | .arrive _ _ :: r => Disciplined r
+
+def wakes : List LOp → Nat
+  | [] => 0
+  | .wake _ :: r => 1 + wakes r
+  | .arrive _ _ :: r => wakes r
+
+/-- invariant of a limited limiter object between two steps -/
+def LInv (s : LockRun) : Prop :=
+  s.o.Tidy ∧ s.o.lim.WF s.now ∧ 1024 ≤ s.o.lim.L ∧ (s.o.holder ≠ none → s.o.lim.bucket < 128)
+
+theorem poll_wf (l : Lim) (now dt : Nat) (hwf : l.WF now) : (poll l (now + dt)).1.WF (now + dt) :=
+  (poll_step l.L l now dt 0 hwf (Nat.le_refl _)).1
+
+theorem poll_zero_bucket (l : Lim) (t : Nat) (hz : (poll l t).2 = 0) : (poll l t).1.bucket < 128 := by
+  have hq : minBucket = 128 := rfl
+  simp only [poll] at hz ⊢
+  split at hz
+  · rename_i h
+    have := refill_snd l t h
+    simp only [h, if_true]; omega
+  · simp [hq] at hz
+
+theorem cascade_inv (now : Nat) : ∀ (q : List Nat) (lim : Lim), lim.WF now →
+    (cascade lim now q).1.lim.WF now ∧ ((cascade lim now q).1.holder ≠ none → (cascade lim now q).1.lim.bucket < 128)
+  | [], lim, hwf => by simp [cascade]; exact hwf
+  | p :: rest, lim, hwf => by
+    have hw : (Rate.poll lim now).1.WF now := by simpa using poll_wf lim now 0 hwf
+    simp only [cascade]
+    by_cases hz : (Rate.poll lim now).2 = 0
+    · simp only [hz, if_true]
+      exact ⟨hw, fun _ => poll_zero_bucket lim now hz⟩
+    · simp only [hz, if_false]
+      exact cascade_inv now rest _ hw
+
+theorem served_mono : ∀ (ops : List LOp) (s : LockRun), s.served.length ≤ (lrun s ops).served.length
+  | [], s => by simp [lrun]
+  | op :: r, s => by
+    have ih := served_mono r (lstep s op)
+    have hr : lrun s (op :: r) = lrun (lstep s op) r := by simp [lrun]
+    rw [hr]
+    cases op <;> simp only [lstep, List.length_append] at ih ⊢ <;> omega
+
+theorem rem_le (l : Lim) : rem l ≤ 16 := by unfold rem; omega
+
+/-- an arrival while the lock is held: queue grows, nothing else moves -/
+theorem arrive_held (s : LockRun) (p dt h : Nat) (hh : s.o.holder = some h) (hi : LInv s) :
+    (lstep s (.arrive p dt)).served = s.served ∧ (lstep s (.arrive p dt)).o.lim = s.o.lim ∧
+    (lstep s (.arrive p dt)).arrivals = s.arrivals ++ [p] ∧ LInv (lstep s (.arrive p dt)) ∧
+    waitingList (lstep s (.arrive p dt)).o = waitingList s.o ++ [p] := by
+  obtain ⟨ht, hwf, hL, hb⟩ := hi
+  simp only [lstep, LObj.arrive, hh, List.append_nil]
+  refine ⟨trivial, trivial, trivial, ⟨?_, ?_, hL, ?_⟩, ?_⟩
+  · intro hn; simp [hh] at hn
+  · exact ⟨hwf.1, by show s.o.lim.last ≤ s.now + dt; have := hwf.2.1; omega, hwf.2.2⟩
+  · intro _; exact hb (by simp [hh])
+  · simp [waitingList, hh]
+
+/-- a disciplined wake-up of the holder: either somebody is served, or the bucket gained at least 8 tokens -/
+theorem wake_progress (s : LockRun) (dt h : Nat) (hh : s.o.holder = some h) (hi : LInv s) (hd : 10 ≤ dt) :
+    LInv (lstep s (.wake dt)) ∧ (lstep s (.wake dt)).arrivals = s.arrivals ∧
+    (lstep s (.wake dt)).served ++ waitingList (lstep s (.wake dt)).o = s.served ++ waitingList s.o ∧
+    (s.served.length < (lstep s (.wake dt)).served.length ∨
+      ((lstep s (.wake dt)).served = s.served ∧ rem (lstep s (.wake dt)).o.lim + 1 ≤ rem s.o.lim ∧
+        (lstep s (.wake dt)).o.holder = some h)) := by
+  obtain ⟨ht, hwf, hL, hb⟩ := hi
+  have hq : minBucket = 128 := rfl
+  have hb' : s.o.lim.bucket < 128 := hb (by simp [hh])
+  have hspec := holderPoll_spec s.o (s.now + dt) ht
+  have hw : (Rate.poll s.o.lim (s.now + dt)).1.WF (s.now + dt) := poll_wf s.o.lim s.now dt hwf
+  have hLL : (Rate.poll s.o.lim (s.now + dt)).1.L = s.o.lim.L := poll_L _ _
+  simp only [lstep]
+  refine ⟨?_, trivial, by rw [List.append_assoc, hspec.1], ?_⟩
+  · -- invariant
+    refine ⟨hspec.2, ?_⟩
+    unfold LObj.holderPoll
+    simp only [hh]
+    by_cases hz : (Rate.poll s.o.lim (s.now + dt)).2 = 0
+    · simp only [hz, if_true]
+      exact ⟨hw, by omega, fun _ => poll_zero_bucket _ _ hz⟩
+    · simp only [hz, if_false]
+      have c := cascade_inv (s.now + dt) s.o.queue _ hw
+      have cL := (cascade_polled (s.now + dt) s.o.queue (Rate.poll s.o.lim (s.now + dt)).1 0).2
+      exact ⟨c.1, by omega, c.2⟩
+  · unfold LObj.holderPoll
+    simp only [hh]
+    by_cases hz : (Rate.poll s.o.lim (s.now + dt)).2 = 0
+    · right
+      simp only [hz, if_true, List.append_nil]
+      refine ⟨trivial, ?_, trivial⟩
+      -- the poll was an empty one: it credited at least 8 tokens
+      have hlt : s.o.lim.bucket < s.o.lim.L := by omega
+      by_cases hemp : s.o.lim.bucket + credit s.o.lim (s.now + dt) < minBucket
+      · have hp := poll_empty s.o.lim (s.now + dt) hlt hemp
+        have hc := credit_ge s.o.lim (s.now + dt) dt hL hb' hd (by have := hwf.2.1; omega)
+        rw [hp]
+        unfold rem
+        dsimp only
+        omega
+      · rw [poll_grant s.o.lim _ hlt hemp] at hz; simp [hq] at hz
+    · left
+      simp only [hz, if_false, List.length_append, List.length_cons]
+      omega
+
+theorem disciplined_cons (op : LOp) (r : List LOp) (h : Disciplined (op :: r)) : Disciplined r := by
+  cases op with
+  | arrive p dt => exact h
+  | wake dt => exact h.2
+
+/-- the potential argument -/
+theorem bounded_wait_aux (idx : Nat) : ∀ (ops : List LOp) (s : LockRun), LInv s →
+    s.served ++ waitingList s.o = s.arrivals → s.served.length ≤ idx → idx < s.arrivals.length →
+    Disciplined ops → 16 * (idx - s.served.length) + rem s.o.lim ≤ wakes ops →
+    idx < (lrun s ops).served.length
+  | [], s, hi, hf, h1, h2, _, hw => by
+    -- somebody waits, so the lock is held and the bucket is below one quantum: rem ≥ 1 > 0 = wakes []
+    exfalso
+    have hne : waitingList s.o ≠ [] := by
+      intro he; rw [he, List.append_nil] at hf; rw [← hf] at h2; omega
+    have hh : s.o.holder ≠ none := by
+      intro hn
+      have := hi.1 hn
+      simp [waitingList, hn, this] at hne
+    have hb := hi.2.2.2 hh
+    simp only [wakes] at hw
+    unfold rem at hw
+    omega
+  | op :: r, s, hi, hf, h1, h2, hd, hw => by
+    have hne : waitingList s.o ≠ [] := by
+      intro he; rw [he, List.append_nil] at hf; rw [← hf] at h2; omega
+    have hh : s.o.holder ≠ none := by
+      intro hn
+      have := hi.1 hn
+      simp [waitingList, hn, this] at hne
+    obtain ⟨h, hh⟩ := Option.ne_none_iff_exists'.mp hh
+    have hb : s.o.lim.bucket < 128 := hi.2.2.2 (by simp [hh])
+    have hrem : 1 ≤ rem s.o.lim := by unfold rem; omega
+    have hr : lrun s (op :: r) = lrun (lstep s op) r := by simp [lrun]
+    rw [hr]
+    cases op with
+    | arrive p dt =>
+      obtain ⟨a1, a2, a3, a4, a5⟩ := arrive_held s p dt h hh hi
+      apply bounded_wait_aux idx r (lstep s (.arrive p dt)) a4
+      · rw [a1, a5, a3, ← List.append_assoc, hf]
+      · rw [a1]; exact h1
+      · rw [a3, List.length_append]; omega
+      · exact disciplined_cons _ _ hd
+      · rw [a1, a2]; simpa [wakes] using hw
+    | wake dt =>
+      have hd10 : 10 ≤ dt := hd.1
+      obtain ⟨w1, w2, w3, w4⟩ := wake_progress s dt h hh hi hd10
+      simp only [wakes] at hw
+      by_cases hserved : idx < (lstep s (.wake dt)).served.length
+      · exact Nat.lt_of_lt_of_le hserved (served_mono r _)
+      · apply bounded_wait_aux idx r (lstep s (.wake dt)) w1
+        · rw [w3, w2]; exact hf
+        · omega
+        · rw [w2]; exact h2
+        · exact hd.2
+        · rcases w4 with hlen | ⟨hs, hrem', _⟩
+          · have := rem_le (lstep s (.wake dt)).o.lim
+            omega
+          · rw [hs]; omega
+
+end AioslskVerif.Rate
